@@ -304,6 +304,36 @@ def check_sandwich(ctx, sc):
     return out
 
 
+def check_solver_cache(ctx, case):
+    """the solver's result cache holds exactly the multi-leg prefixes of the solved paths (model: solveAll)"""
+    from arim import geometry as g
+    from arim import ray
+
+    pts = [g.Points(s.copy(), f"S{k}") for k, s in enumerate(case["sets"])]
+    fpaths = []
+    for ids, vs in case["paths"]:
+        seq = [pts[ids[0]]]
+        for i, v in zip(ids[1:], vs):
+            seq += [v, pts[i]]
+        fpaths.append(ray.FermatPath(tuple(seq)))
+    solver = ray.FermatSolver(tuple(fpaths))
+    solver.solve_no_clean()
+    legid = {}
+
+    def key_of(fp):
+        out = []
+        for k in range(0, len(fp) - 2, 2):
+            leg = (id(fp[k]), fp[k + 1], id(fp[k + 2]))
+            out.append(legid.setdefault(leg, len(legid)))
+        return out
+    keys = [key_of(fp) for fp in fpaths]
+    got = sorted(",".join(map(str, key_of(k))) for k in solver.cached_result.keys())
+    ans = ctx.drive(["fermatcache " + " ".join(",".join(map(str, k)) for k in keys)])[0]
+    model = sorted(x for x in ans[3:].split(";") if x) if ans.startswith("ok") else None
+    if model != got:
+        ctx.disagree(f"solver cache keys {got} differ from the model {model}", case_json(case))
+
+
 def emit(ctx, outs, case_json, tags=None):
     for kind, what in outs:
         if kind == "violate":
@@ -345,6 +375,8 @@ def run(ctx):
             ctx.disagree("model rejected the case: " + a, case_json(c))
             a = None
         emit(ctx, check_case(ctx, c, a), case_json(c))
+        if a is not None and ctx.lean.driver_ok:
+            check_solver_cache(ctx, c)
     # kernel alone
     mp = [gen_minplus(rng) for _ in range(300 * ctx.scale)]
     mlines = [f"minplus {a.shape[0]} {a.shape[1]} {b.shape[1]} {fmat(a)} {fmat(b)}" for a, b, _ in mp]
